@@ -1,4 +1,6 @@
 """Pony SQL AST (nested python lists) -> JSON trees for spec/SqlSem.tla."""
+import datetime
+
 from .tlc import MachineryError
 
 
@@ -14,6 +16,13 @@ def val(v):
         return {'t': 'int', 'v': v}
     if isinstance(v, str):
         return {'t': 'str', 'v': list(v)}
+    if isinstance(v, datetime.timedelta):      # whole minutes only (C02's datetime arithmetic)
+        if v % datetime.timedelta(minutes=1) == datetime.timedelta(0):
+            return {'t': 'td', 'v': v // datetime.timedelta(minutes=1)}
+    if isinstance(v, datetime.datetime):       # minutes since 2020-01-01 00:00
+        d = v - datetime.datetime(2020, 1, 1)
+        if d % datetime.timedelta(minutes=1) == datetime.timedelta(0):
+            return {'t': 'dt', 'v': d // datetime.timedelta(minutes=1)}
     raise MachineryError('value outside the SqlSem domain: %r' % (v,))
 
 
@@ -25,6 +34,8 @@ def unval(x):
         return 'ERROR'
     if t == 'str':
         return ''.join(x['v'])
+    if t == 'dt':
+        return datetime.datetime(2020, 1, 1) + datetime.timedelta(minutes=x['v'])
     return x['v']
 
 
